@@ -2,8 +2,8 @@ package absint
 
 import (
 	"fmt"
-	"os"
 	"math/big"
+	"os"
 	"sort"
 	"strings"
 )
@@ -1100,7 +1100,6 @@ func EqualGuarded(a, b *Poly) bool {
 	}
 	return true
 }
-
 
 // dropZeroVar removes the monomials that contain (a power of) a variable standing for the polynomial z, which is
 // zero by hypothesis.
